@@ -113,6 +113,8 @@ def show(a, ty):
         s = atom(x[3])
         if s is None:
             return None
+        if ty == "emacs":
+            return None          # GNU's emacs syntax has no interval operator
         return s + (("{%d,%d}" if ext else "\\{%d,%d\\}") % (x[1], x[2]))
     return go(a)
 
@@ -244,14 +246,28 @@ def known(ctx, forest):
               ("posix-extended", b"nl/((a+)+b|a+)", [b"nl/a", b"nl/aaaaaaaaaaaaaaaaaaaaaaaa"]),
               ("emacs", b"nl/\\(\\(a+\\)+b\\|a+\\)", [b"nl/a", b"nl/aaaaaaaaaaaaaaaaaaaaaaaa"]),
               ("posix-basic", b"nl/a\\|nl/a)", [b"nl/a", b"nl/a)"]), ("sed", b"nl/\\(a)\\|a\\)b*", [b"nl/a", b"nl/a)", b"nl/a)b"])]
-    for ty, pat, want in cases:
+    # (re-audit) grouping inside the wrapped pattern: a back-reference names the group it says; [:punct:] and [:digit:] in a bracket
+    # expression are the POSIX classes; a newline is a character like any other for grep's '.' and negated brackets; a backslash before a
+    # letter is that letter; emacs has no interval operator
+    d2 = os.path.join(forest.dir, b"gr")
+    os.mkdir(d2)
+    for n in (b"aa", b"abb", b"aba", b"aa0", b"a)", b"x$", b"x+", b"x~", b"x.", b"x3", b"x\xd9\xa3", b"xt", b"x\t", b"x{2}", b"xx", b"a\nb-"):
+        open(os.path.join(d2, n), "wb").close()
+    cases2 = [("emacs", b"gr/\\(a\\)\\1", [b"gr/aa"]), ("posix-extended", b"gr/(a)(b)\\2", [b"gr/abb"]), ("posix-basic", b"gr/\\(a\\)\\(b\\)\\2", [b"gr/abb"]),
+              ("grep", b"gr/\\(a\\)\\1", [b"gr/aa"]), ("posix-extended", b"gr/(a)\\10", [b"gr/aa0"]), ("posix-extended", b"gr/a)|gr/(a)b\\1", [b"gr/a)", b"gr/aba"]),
+              ("posix-extended", b"gr/x[[:punct:]]", [b"gr/x$", b"gr/x+", b"gr/x~", b"gr/x."]), ("posix-basic", b"gr/x[^[:punct:][:alpha:]0-9]", [b"gr/x\t", b"gr/x\xd9\xa3"]),
+              ("grep", b"gr/x[[:digit:]]", [b"gr/x3"]), ("posix-extended", b"gr/x[^[:digit:][:punct:]a-z\t]", [b"gr/x\xd9\xa3"]),
+              ("grep", b"gr/a[^a]b-", [b"gr/a\nb-"]), ("grep", b"gr/a.b-", [b"gr/a\nb-"]), ("posix-basic", b"gr/a.b-", [b"gr/a\nb-"]), ("emacs", b"gr/a.b-", []),
+              ("emacs", b"gr/x\\t", [b"gr/xt"]), ("posix-extended", b"gr/x\\t", [b"gr/xt"]), ("grep", b"gr/x\\t", [b"gr/xt"]),
+              ("emacs", b"gr/x\\{2\\}", [b"gr/x{2}"]), ("posix-basic", b"gr/x\\{2\\}", [b"gr/xx"]), ("posix-extended", b"gr/x{2}", [b"gr/xx"])]
+    for root, ty, pat, want in [(b"nl",) + c for c in cases] + [(b"gr",) + c for c in cases2]:
         for flag in (b"-regex", b"-iregex"):
-            line = "find - %s %s" % (fw.hexs(forest.dir), xc.hexlist([b"nl", b"-regextype", ty.encode(), flag, pat, b"-print0"]))
+            line = "find - %s %s" % (fw.hexs(forest.dir), xc.hexlist([root, b"-regextype", ty.encode(), flag, pat, b"-print0"]))
             code, out, err = wc.decode_find(xc.run_impl([line])[0])
             got = sorted(out.split(b"\0")[:-1])
             ctx.count(("newline", ty, pat, flag), True, "newline-in-path")
             if got != sorted(want) or code != 0:
-                ctx.violation("find nl -regextype %s %s %r matched %r, the language contains %r" % (ty, flag.decode(), pat, got, sorted(want)),
+                ctx.violation("find %s -regextype %s %s %r matched %r, the language contains %r" % (root.decode(), ty, flag.decode(), pat, got, sorted(want)),
                               {"property": "C17", "kind": "newline-in-path", "regextype": ty, "pattern": pat.decode(), "matched": [fw.hexs(x) for x in got],
                                "language": [fw.hexs(x) for x in sorted(want)],
                                "explain": "regardless of the order in which alternatives are written: the whole path, final newline included, must be consumed"})
